@@ -5,6 +5,7 @@
 # seeded/RESULTS_handmade_<tier>.txt (same format as the serial tools). The copies live under /tmp and are removed at the end.
 tier=${1:-quick}; N=${2:-4}; shift 2 2>/dev/null
 cd /verif
+sfx=""; [ -n "${VERIF_SEED:-}" ] && [ "${VERIF_SEED}" != 1 ] && sfx="_seed${VERIF_SEED}" 
 base=$(mktemp -d /tmp/verif-par-XXXXXX)
 jobs=$base/jobs.txt; : > $jobs
 names=${@:-$(ls seeded | grep '^C[0-9][0-9]-'; ls seeded/handmade | sed 's/\.diff$//' | sed 's#^#handmade/#')}
@@ -37,7 +38,7 @@ worker() {
 for k in $(seq 1 $N); do worker $k & done
 wait
 git -C /repo worktree prune
-cat $base/out.* 2>/dev/null | grep -v '^handmade/' | sed 's#/tmp/verif-par-[A-Za-z0-9]*/verif[0-9]*/#/verif/#g' | sort -V > seeded/RESULTS_$tier.txt
-cat $base/out.* 2>/dev/null | grep '^handmade/' | sed 's#^handmade/##' | sed 's#/tmp/verif-par-[A-Za-z0-9]*/verif[0-9]*/#/verif/#g' | sort > seeded/RESULTS_handmade_$tier.txt
+cat $base/out.* 2>/dev/null | grep -v '^handmade/' | sed 's#/tmp/verif-par-[A-Za-z0-9]*/verif[0-9]*/#/verif/#g' | sort -V > seeded/RESULTS_$tier$sfx.txt
+cat $base/out.* 2>/dev/null | grep '^handmade/' | sed 's#^handmade/##' | sed 's#/tmp/verif-par-[A-Za-z0-9]*/verif[0-9]*/#/verif/#g' | sort > seeded/RESULTS_handmade_$tier$sfx.txt
 rm -rf $base
-echo "seeded: $(grep -c . seeded/RESULTS_$tier.txt) lines, not caught: $(grep -vc ' CAUGHT \| SUPERSEDED ' seeded/RESULTS_$tier.txt); handmade: $(grep -c . seeded/RESULTS_handmade_$tier.txt) lines, not caught: $(grep -vc ' CAUGHT ' seeded/RESULTS_handmade_$tier.txt)"
+echo "seeded: $(grep -c . seeded/RESULTS_$tier$sfx.txt) lines, not caught: $(grep -vc ' CAUGHT \| SUPERSEDED ' seeded/RESULTS_$tier$sfx.txt); handmade: $(grep -c . seeded/RESULTS_handmade_$tier$sfx.txt) lines, not caught: $(grep -vc ' CAUGHT ' seeded/RESULTS_handmade_$tier$sfx.txt)"
